@@ -24,6 +24,9 @@ def describe(field):
              is_bigendian=bool(field.is_bigendian), field_name=getattr(field, 'field_name', None))
     if type(field).__name__ == 'Int':
         d.update(byte_count=field.byte_count, is_signed=bool(field.is_signed))
+        so = getattr(field, 'struct_obj', None)
+        d.update(struct_format=(so.format if so is not None else None), struct_size=(so.size if so is not None else None),
+                 pack_name=getattr(field.pack, '__name__', None), unpack_name=getattr(field.unpack, '__name__', None))
     if type(field).__name__ == 'Data':
         d.update(byte_count=field.byte_count if isinstance(field.byte_count, int) else None)
     return d
